@@ -1013,6 +1013,39 @@ func (env *Env) elabCall(x *ECall) Val {
 			return Val{T: types.Typ[types.Bool], S: "true"}
 		}
 		return Val{T: types.Typ[types.Bool], S: "false"}
+	case name == "typename":
+		// typename(x, "Suffix"): the name of the named type T when the interface value x was made from a T or *T at
+		// this very program point, with the given suffix removed (a type whose name lacks the suffix is a contract
+		// error) - read off go/types, no solver involved. For the nil interface value: an arbitrary string.
+		if len(x.Args) != 2 {
+			fail("typename(x, \"Suffix\") needs an interface value and a string literal")
+		}
+		v := env.elab(x.Args[0])
+		suf, ok := x.Args[1].(*EStr)
+		if !ok {
+			fail("typename(x, \"Suffix\"): the suffix must be a string literal")
+		}
+		if v.Dyn == nil {
+			if v.S == "iface_nil" {
+				n := c.fresh("nilname")
+				c.declare(n, c.sortOf(types.Typ[types.String]))
+				return Val{T: types.Typ[types.String], S: n}
+			}
+			fail("%s: the dynamic type of %s is not known here", exprString(x), exprString(x.Args[0]))
+		}
+		dt := v.Dyn
+		if p, ok := dt.(*types.Pointer); ok {
+			dt = p.Elem()
+		}
+		nt, ok := dt.(*types.Named)
+		if !ok {
+			fail("%s: dynamic type %v is not a named type", exprString(x), v.Dyn)
+		}
+		tn := nt.Obj().Name()
+		if !strings.HasSuffix(tn, suf.V) {
+			fail("%s: type name %s does not end in %q", exprString(x), tn, suf.V)
+		}
+		return Val{T: types.Typ[types.String], S: c.strConst(strings.TrimSuffix(tn, suf.V))}
 	case name == "iszero":
 		// iszero(x): x is the zero value of its type (arrays and structs included)
 		if len(x.Args) != 1 || env.zero == nil {
